@@ -32,6 +32,18 @@ class Excel:
         """
         cell.uid
 
+    def _handle_cell_of_workbook(self, cell: Cell):
+        """
+        Resolves the identifiers of a cell that comes from a formula; a reference that cannot exist in this
+        workbook is a problem of the formula, so it is reported with the parser exception
+        """
+        try:
+            handle_cell(cell, self._titles)
+        except KeyError:
+            raise E2PyclParserException(f'There is no sheet {cell.title!r} in the workbook')
+        except ValueError as error:
+            raise E2PyclParserException(f'Invalid cell reference: {error}')
+
     def _fill_cell(self, cell: Cell) -> Cell:
         self._handle_cell(cell)
         cell.value = self._data[cell.title][cell.row][cell.column] if 0 <= cell.title < len(
@@ -44,7 +56,7 @@ class Excel:
             # TODO добавить кастомные исключения
             raise E2PyclParserException('It is not possible to get a cell without pointing to a specific row')
 
-        handle_cell(cell, self._titles)
+        self._handle_cell_of_workbook(cell)
 
         return self._fill_cell(cell)
 
@@ -52,8 +64,8 @@ class Excel:
     # TODO добавить проверки на предмет выхода за диапазоны excel-файлика
     # TODO добавить проверки на предмет того, что дальше, а что ближе
     def get_range(self, first: Cell, second: Cell) -> list:
-        handle_cell(first, self._titles)
-        handle_cell(second, self._titles)
+        self._handle_cell_of_workbook(first)
+        self._handle_cell_of_workbook(second)
 
         if first.title != second.title:
             raise E2PyclParserException(
@@ -70,9 +82,9 @@ class Excel:
         return result
 
     def get_similar_second(self, base: Cell, first: Cell, second: Cell):
-        handle_cell(base, self._titles)
-        handle_cell(first, self._titles)
-        handle_cell(second, self._titles)
+        self._handle_cell_of_workbook(base)
+        self._handle_cell_of_workbook(first)
+        self._handle_cell_of_workbook(second)
 
         return Cell(base.title, base.column + (second.column - first.column), base.row + (second.row - first.row) if first.row is not None or second.row is not None else None)
 
@@ -117,8 +129,8 @@ class Excel:
 
     # TODO добавить проверки аналогичные get_set
     def get_matrix(self, first: Cell, second: Cell) -> list:
-        handle_cell(first, self._titles)
-        handle_cell(second, self._titles)
+        self._handle_cell_of_workbook(first)
+        self._handle_cell_of_workbook(second)
 
         if first.row is None and second.row is None:
             if first.column == second.column:
@@ -129,7 +141,7 @@ class Excel:
                 first.title, column_index, None)) for column_index in range(first.column, second.column+1)))
             # the columns were collected one by one: turn them into rows, like every other area
             return [list(row) for row in zip(*result)]
-        elif isinstance(first.row, int) and first.row >= 0 and second.row >= 0:
+        elif isinstance(first.row, int) and isinstance(second.row, int) and first.row >= 0 and second.row >= 0:
             return self._get_matrix(first, second)
         else:
             raise E2PyclParserException('Invalid cell coordinates')
